@@ -25,7 +25,8 @@ Section Oracles.
     fold_left (fun acc q => let l := nth q labels None in
                             if existsb (label_beq l) acc then acc else acc ++ [l]) qs [].
 
-  (* one iteration of the loop in partition_circuit_qubits: the instruction that is stored back *)
+  (* one iteration of the loop in partition_circuit_qubits: the instruction that is stored back
+     (the implementation collects the replacements and stores them after the loop; the result is the same) *)
   Definition pcq_step (labels : list label) (inst : instr) : res instr :=
     if is_barrier inst then Ok inst else
     if Nat.leb (length (iqs inst)) 1 || Nat.eqb (length (span_labels labels (iqs inst))) 1 then Ok inst else
@@ -52,23 +53,35 @@ Section Oracles.
   Definition partition_circuit_qubits (n : nat) (c : circ) (labels : list label) : res circ :=
     if negb (Nat.eqb (length labels) n) then Refused else pcq_loop labels c.
 
-  (* cut_gates(circuit, gate_ids): data[gate_id] out of range is an IndexError *)
-  Fixpoint cut_loop (c : circ) (ids : list nat) (bases : list nat) : res (circ * list nat) :=
+  (* cut_gates(circuit, gate_ids): every replacement is built from the circuit AS GIVEN (data[gate_id] out of
+     range is an IndexError, an unsupported gate a ValueError, whichever comes first in gate_ids), then all are
+     stored back in order; an id listed twice therefore yields the same placeholder and basis twice *)
+  Fixpoint cut_collect (c : circ) (ids : list nat) : res (list (nat * instr) * list nat) :=
     match ids with
-    | [] => Ok (c, bases)
+    | [] => Ok ([], [])
     | g :: r =>
         match nth_error c g with
         | None => Crashed
         | Some inst =>
             match basis_of (iop inst) with
             | None => Refused
-            | Some (b, lbl) => cut_loop (upd c g (mkI (Qpd2 b None lbl) (iqs inst) [])) r (bases ++ [b])
+            | Some (b, lbl) =>
+                match cut_collect c r with
+                | Ok (reps, bs) => Ok ((g, mkI (Qpd2 b None lbl) (iqs inst) []) :: reps, b :: bs)
+                | Refused => Refused
+                | Crashed => Crashed
+                end
             end
         end
     end.
 
   Definition cut_gates (nclbits ncregs : nat) (c : circ) (ids : list nat) : res (circ * list nat) :=
-    if negb (Nat.eqb ncregs 0) || negb (Nat.eqb nclbits 0) then Refused else cut_loop c ids [].
+    if negb (Nat.eqb ncregs 0) || negb (Nat.eqb nclbits 0) then Refused else
+    match cut_collect c ids with
+    | Ok (reps, bs) => Ok (fold_left (fun c p => upd c (fst p) (snd p)) reps c, bs)
+    | Refused => Refused
+    | Crashed => Crashed
+    end.
 
   (* for inst in data: if TwoQubitQPDGate: bases.append(basis); label = f"{label}_{i}"; i += 1 *)
   Fixpoint number_qpd (c : circ) (i : nat) : circ * list nat :=
